@@ -31,16 +31,44 @@ static int check_cholDec(int dim, double d0, double tol)
   return bad ? 1 : 0;
 }
 
+// Directed search when the trace's witness does not reproduce: small families of profiles with one tiny / zero pivot.
+static int search_cholDec()
+{
+  for (int dim = 1; dim <= 4; dim++)
+    for (int k = 0; k < dim; k++)
+      for (int shape = 0; shape < 2; shape++)      // 0: empty profile (diagonal matrix), 1: full profile
+        for (int tiny = 0; tiny < 2; tiny++) {
+          std::vector<double> diag(dim, 1.0), env;
+          std::vector<int> band(dim, 0);
+          diag[k] = tiny ? 1e-12 : 0.0;
+          if (shape == 1) for (int r = 0; r < dim; r++) { band[r] = r; for (int c = 0; c < r; c++) env.push_back(0.0); }
+          double dummy = 0;
+          const double* eb = env.empty() ? &dummy : env.data();
+          Env e(diag.data(), diag.data() + dim, eb, eb + env.size(), band.data(), band.data() + dim);
+          e.cholDec();
+          double teff = std::sqrt(std::numeric_limits<double>::epsilon());
+          int zeros = 0, bad = 0;
+          const Env& ce = e;
+          for (int r = 1; r <= dim; r++) { double d = ce.diagonal(r); if (d == 0) zeros++; else if (std::fabs(d) < teff) bad++; }
+          if ((int)e.defect() != zeros) bad++;
+          if (bad) {
+            std::printf("cholDec on diag(1,..,%g at row %d,..,1), dim %d, %s profile: pivot left at %.3g, defect() = %d, zero pivots = %d: POSTCONDITION VIOLATED\n",
+                        diag[k], k + 1, dim, shape ? "full" : "empty", ce.diagonal(k + 1), (int)e.defect(), zeros);
+            return 1;
+          }
+        }
+  std::printf("directed search (dims 1..4, one tiny/zero pivot, empty/full profile): no violation\n");
+  return 0;
+}
+
 int main(int argc, char** argv)
 {
   if (argc < 3) return 2;
   GvInputs in(argv[1]);
   std::string check = argv[2];
   if (check == "cholDec") {
-    if (in.has("w_d0"))
-      return check_cholDec((int)in.integer("w_dim", 2), in.num("w_d0", 0), in.num("w_tol", 0));
-    std::printf("no witness values in the trace\n");
-    return 2;
+    if (in.has("w_d0") && check_cholDec((int)in.integer("w_dim", 2), in.num("w_d0", 0), in.num("w_tol", 0)) == 1) return 1;
+    return search_cholDec();
   }
   std::printf("no native replay for check %s\n", check.c_str());
   return 2;
